@@ -63,6 +63,27 @@ type batchOp struct {
 	kind  string // Set | Delete | DeleteRange
 	key   *keyCall
 	val   ssa.Value
+	top   ssa.Instruction // for an operation inside a batch helper: the call in the mutating function that stands for it
+}
+
+// at: the instruction of the mutating function at which the operation takes place.
+func (o batchOp) at() ssa.Instruction {
+	if o.top != nil {
+		return o.top
+	}
+	return o.instr
+}
+
+// batchOpsDeep: the operations of fn and of the batch helpers it calls.
+func batchOpsDeep(p *core.Program, fn *ssa.Function) []batchOp {
+	out := batchOpsOf(p, fn)
+	for _, hb := range batchHelperCalls(p, fn) {
+		for _, op := range batchOpsOf(p, hb.g) {
+			op.top = hb.top
+			out = append(out, op)
+		}
+	}
+	return out
 }
 
 func batchOpsOf(p *core.Program, fn *ssa.Function) []batchOp {
@@ -316,23 +337,61 @@ func c06Adder(r *core.Run, fn *ssa.Function, ops []batchOp, rec map[*ssa.Functio
 			path := core.PathAvoiding(recSet.instr.Block(), commit.Block(), cut)
 			r.Check(path == nil, "C06.IDX", fnm+"#index-coupled("+xn+")", set.instr.Pos(), "every path from the record write to the commit writes this index (unless its hash is empty)", "the record can be committed without its "+xn+" entry ("+core.FmtPath(path)+")")
 		}
-		// stale delete
+		// stale delete: performed here, or in a helper that is handed the batch, the old and the new record
+		df, dO, dB := fn, O, B // function in which the delete lives, and the old/new record there
+		var dsite ssa.Instruction
+		delSameBatch := func(op batchOp) bool { return sameBatch(op) }
+		if del == nil && O != nil {
+			core.InstrsOf(fn, func(in ssa.Instruction) {
+				hc := core.CallOf(in)
+				if hc == nil || del != nil {
+					return
+				}
+				g := core.StaticCallee(hc)
+				if g == nil || !p.IsProdFunc(g) || g.Blocks == nil || g == fn {
+					return
+				}
+				oi, bi, ki := -1, -1, -1
+				for i, a := range hc.Args {
+					switch {
+					case slotOf(a) == slotOf(O):
+						oi = i
+					case slotOf(a) == slotOf(B) || core.Resolve(a) == core.Resolve(B):
+						bi = i
+					case a == recSet.instr.Common().Args[0]:
+						ki = i
+					}
+				}
+				if oi < 0 || bi < 0 || ki < 0 || oi >= len(g.Params) || bi >= len(g.Params) || ki >= len(g.Params) {
+					return
+				}
+				gops := batchOpsOf(p, g)
+				for i := range gops {
+					if gops[i].kind == "Delete" && gops[i].key != nil && gops[i].key.builder == X {
+						del = &gops[i]
+						df, dO, dB, dsite = g, g.Params[oi], g.Params[bi], in
+						batchParam := ssa.Value(g.Params[ki])
+						delSameBatch = func(op batchOp) bool { return op.instr.Common().Args[0] == batchParam }
+					}
+				}
+			})
+		}
 		if del == nil {
 			r.Fail("C06.IDX", fnm+"#stale-delete("+xn+")", recSet.instr.Pos(), "no stale-entry delete for index "+xn+": after an update the old entry still points at the signature")
 			continue
 		}
-		okDel := O != nil
+		okDel := dO != nil
 		var dfields []string
 		for _, a := range del.key.args {
 			base, f, ok := sigField(a)
-			if !ok || base != O {
+			if !ok || slotOf(base) != slotOf(dO) {
 				okDel = false
 			}
 			dfields = append(dfields, f)
 		}
-		r.Check(okDel && sameBatch(*del) && strings.Join(dfields, ",") == strings.Join(fields, ","), "C06.IDX", fnm+"#stale-delete("+xn+")", del.instr.Pos(), "stale entry is computed from the previously stored record with the same fields", "stale-entry delete of "+xn+" is not computed from the previously stored record ("+strings.Join(dfields, ",")+")")
+		r.Check(okDel && delSameBatch(*del) && strings.Join(dfields, ",") == strings.Join(fields, ","), "C06.IDX", fnm+"#stale-delete("+xn+")", del.instr.Pos(), "stale entry is computed from the previously stored record with the same fields", "stale-entry delete of "+xn+" is not computed from the previously stored record ("+strings.Join(dfields, ",")+")")
 		// guard: only old.f != new.f (and old.f != "", decode ok)
-		if O != nil {
+		if dO != nil {
 			ff := fields[0]
 			guard := func(cond ssa.Value) (bool, bool) {
 				op, x, y, neg, ok := core.Compare(cond)
@@ -341,18 +400,22 @@ func c06Adder(r *core.Run, fn *ssa.Function, ops []batchOp, rec map[*ssa.Functio
 				}
 				bx, fx, okx := sigField(x)
 				by, fy, oky := sigField(y)
-				if okx && oky && fx == ff && fy == ff && ((bx == O && by == B) || (bx == B && by == O)) {
+				if okx && oky && fx == ff && fy == ff && ((slotOf(bx) == slotOf(dO) && slotOf(by) == slotOf(dB)) || (slotOf(bx) == slotOf(dB) && slotOf(by) == slotOf(dO))) {
 					return true, true
 				}
 				return false, false
 			}
-			ok1, n1, _ := core.MustPass(fn, del.instr.Block(), guard)
+			ok1, n1, _ := core.MustPass(df, del.instr.Block(), guard)
 			r.Check(ok1 && n1 > 0, "C06.IDX", fnm+"#stale-delete-guard("+xn+")", del.instr.Pos(), "delete happens when old."+ff+" != new."+ff, "the stale delete is not tied to old."+ff+" != new."+ff+": a live entry can be deleted")
 			upstream := map[string]bool{}
 			for _, g := range rejectingGuards(fn, recSet.instr.Block()) {
 				upstream[g] = true // conditions under which nothing is written at all
 			}
-			for _, g := range rejectingGuards(fn, del.instr.Block()) {
+			gs := rejectingGuards(df, del.instr.Block())
+			if dsite != nil {
+				gs = append(gs, rejectingGuards(fn, dsite.Block())...) // the helper call's own conditions
+			}
+			for _, g := range gs {
 				if upstream[g] {
 					continue
 				}
@@ -612,7 +675,16 @@ func c06Rebuild(r *core.Run, rec map[*ssa.Function]bool, idx []*ssa.Function) {
 		if fn.Parent() != nil {
 			continue
 		}
-		ops := batchOpsOf(p, fn)
+		takesBatch := false
+		for _, pa := range fn.Params {
+			if isBatchPtr(pa.Type()) {
+				takesBatch = true
+			}
+		}
+		if takesBatch {
+			continue // a batch helper: judged as part of the functions that call it
+		}
+		ops := batchOpsDeep(p, fn)
 		got := map[string]bool{}
 		var dr *batchOp
 		for i := range ops {
@@ -696,7 +768,7 @@ func c06Rebuild(r *core.Run, rec map[*ssa.Function]bool, idx []*ssa.Function) {
 				iter = in
 			}
 		})
-		drBeforeCommit := firstCommit != nil && core.ReachAvoiding(dr.instr.Block(), nil)[firstCommit.Block()] && !core.ReachAvoiding(firstCommit.Block(), nil)[dr.instr.Block()]
+		drBeforeCommit := firstCommit != nil && core.ReachAvoiding(dr.at().Block(), nil)[firstCommit.Block()] && !core.ReachAvoiding(firstCommit.Block(), nil)[dr.at().Block()]
 		r.Check(firstCommit != nil && iter != nil && core.Precedes(firstCommit, iter) && drBeforeCommit, "C06.REBUILD", fnm+"#clear-committed-first", dr.instr.Pos(), "index clear is committed before records are re-read", "the index clear is not committed before the re-derivation starts")
 	}
 	r.Floor("C06.REBUILD", "index rebuild (function with DeleteRange)", n, 1)
